@@ -1326,6 +1326,11 @@ sc_options_save (int package_id, int err_priority,
         item->opt_type == SC_OPTION_CALLBACK) {
       continue;
     }
+    if (item->opt_type == SC_OPTION_STRING &&
+        sc_options_string_get ((sc_option_string_t *) item->opt_var) == NULL) {
+      /* an unset string has no representation in the file */
+      continue;
+    }
 
     base_name = NULL;
     if (item->opt_name != NULL) {
